@@ -117,80 +117,110 @@ fn check_chunk<const N: usize, const SPAN: usize>(v: &Vec<u8>, data: &[u8; N], l
     start + v.len()
 }
 
-/// N < 2*min + something: at most two chunks; three calls of next() drain the iterator
-fn partition_check<const N: usize, const SPAN: usize, const INTR: bool>(size: usize, min: usize, max: usize, intr: u8, hint: usize) {
-    let rabin = Rabin64::new_with_polynom(6, &POLY);
-    let data: [u8; N] = kani::any();
+/// One step of the iterator from an arbitrary valid mid-stream state (inductive step):
+/// look-ahead buffer with `unread` symbolic bytes left over from the previous chunk, Rabin state
+/// disturbed by previously slid bytes, reader with 0..=N remaining symbolic bytes.
+/// Invariant of ChunkIter between calls: pos <= buf.len(); finished => nothing left anywhere.
+fn step_check<const N: usize, const L: usize, const SPAN: usize, const INTR: bool>(size: usize, min: usize, max: usize, intr: u8, hint: usize) {
+    let mut rabin = Rabin64::new_with_polynom(6, &POLY);
+    // remaining input = look[pos..fill] ++ data[..len]; laid out in one array `all` for the reference
+    let all: [u8; 160] = kani::any();
+    let fill: usize = kani::any();
+    let pos: usize = kani::any();
+    kani::assume(fill <= L && pos <= fill);
+    let unread = fill - pos;
     let len: usize = kani::any();
     kani::assume(len <= N);
+    let total = unread + len;
+    // previous chunk left the rolling hash in some state: slide up to two arbitrary bytes
+    let k: u8 = kani::any();
+    kani::assume(k <= 2);
+    if k >= 1 { rabin.slide(kani::any()); }
+    if k >= 2 { rabin.slide(kani::any()); }
+    let mut data = [0u8; N];
+    let mut i = 0;
+    while i < N { data[i] = all[(unread + i) % 160]; i += 1; }
     let reader = FragReader::<N, INTR> { data, len, pos: 0, intr };
     let mut it = ChunkIter::new(rabin, size, min, max, reader, hint).unwrap();
-    let mut start = 0usize;
-    let mut nchunks = 0usize;
-    let mut cut_before_max = false;
-    // call 1
-    match it.next() {
-        None => {}
+    let mut buf = Vec::with_capacity(L);
+    let mut i = 0;
+    while i < L { buf.push(if i >= pos && i < fill { all[i - pos] } else { 0 }); i += 1; }
+    buf.truncate(fill);
+    it.buf = buf;
+    it.pos = pos;
+    let r = it.next();
+    match r {
+        None => { assert!(total == 0); assert!(it.finished); }
         Some(Ok(v)) => {
-            start = check_chunk::<N, SPAN>(&v, &data, len, start, size, min, max);
-            if start < len && v.len() < max { cut_before_max = true; }
-            nchunks += 1;
+            let c = v.len();
+            // non-empty, bounded, content-defined, lossless
+            assert!(c >= 1 && c <= max && c <= total);
+            let expect = reference_cut::<160, SPAN>(&all, total, 0, size, min, max);
+            assert!(c == expect);
+            if c < total { assert!(c >= min); }
+            let mut i = 0;
+            while i < c { assert!(v[i] == all[i]); i += 1; }
+            // continuation: what the iterator still holds plus what the reader still has is exactly the rest
+            assert!(it.pos <= it.buf.len());
+            let held = it.buf.len() - it.pos;
+            let rest_reader = it.reader.len - it.reader.pos;
+            assert!(held + rest_reader == total - c);
+            let mut j = 0;
+            while j < held { assert!(it.buf[it.pos + j] == all[c + j]); j += 1; }
+            assert!(it.reader.pos + unread == c + held);
+            if it.finished { assert!(held == 0 && rest_reader == 0); }
+            kani::cover!(c < max && c < total, "a content-defined cut before max size with data remaining");
+            kani::cover!(c == max, "cut at max size");
+            kani::cover!(c == total && c < min, "short last chunk");
+            kani::cover!(unread > 0 && k > 0, "mid-stream state: leftover look-ahead bytes and disturbed hash");
+            kani::cover!(held > 0, "look-ahead bytes carried over to the next call");
             std::mem::forget(v);
-            // call 2
-            match it.next() {
-                None => {}
-                Some(Ok(v2)) => {
-                    start = check_chunk::<N, SPAN>(&v2, &data, len, start, size, min, max);
-                    nchunks += 1;
-                    std::mem::forget(v2);
-                    // call 3: N < 2*min, so the second chunk was the last
-                    let third = it.next();
-                    assert!(third.is_none());
-                    std::mem::forget(third);
-                }
-                Some(Err(e)) => { std::mem::forget(e); assert!(false, "chunker returned an error on a reader that never fails"); }
-            }
         }
         Some(Err(e)) => { std::mem::forget(e); assert!(false, "chunker returned an error on a reader that never fails"); }
     }
-    assert!(start == len);
-    kani::cover!(nchunks == 2, "stream split into two chunks");
-    kani::cover!(cut_before_max, "a content-defined cut before max size");
-    kani::cover!(len == 0 && nchunks == 0, "empty stream yields no chunk");
+    kani::cover!(total == 0, "empty remaining stream yields None");
     std::mem::forget(it);
 }
 
-//@ harness: c06_rabin_partition_64_72
+//@ harness: c06_rabin_step_64_72
 //@ prop: C06
 //@ tier: quick
 //@ timeout: 1500
 //@ mem: 24
 //@ unwindset: calculate_out_table#0=64; calculate_out_table#1=258; calculate_mod_table#0=258; modulo#0=64
 //@ kernel: chunker::rabin::ChunkIter::{new,next}, check_rabin_params, rustic_cdc::Rabin64::{new_with_polynom,calculate_out_table,calculate_mod_table,reset_and_prefill_window,slide}, Polynom64::{modulo,degree}
-//@ bound: polynomial 0x3DA3358B4DC173; (avg,min,max)=(64,64,72); stream length symbolic 0..=76, every byte symbolic; every read returns a symbolic count 1..=min(avail,buf); size_hint 0; symbolic loops unwound 80, table loops 258/64
-//@ oracle: lossless (concatenation == stream), bounded (min<=len<=max except last; non-empty), content-defined: each cut == reference_cut computed by direct polynomial remainder over rustic's window, independent of fragmentation
-//@ outside: streams longer than 76 bytes; other polynomials; random_poly search
+//@ bound: ONE call of next() from an arbitrary valid iterator state (inductive step: covers every chunk of streams of any length): polynomial 0x3DA3358B4DC173; (avg,min,max)=(64,64,72); 0..=12 unread look-ahead bytes left by the previous call, rolling hash disturbed by 0..=2 previously slid bytes, 0..=76 further stream bytes; every byte symbolic; every read returns a symbolic count 1..=min(avail,buf); size_hint 0; symbolic loops unwound 90, table loops 258/64
+//@ oracle: the chunk is the next c bytes of the remaining input with c == reference_cut (direct polynomial remainder over rustic's 64-byte window, no tables, no rolling): non-empty, min<=c<=max unless the stream ends, independent of read fragmentation and of the previous hash state; afterwards the iterator's look-ahead plus the reader's rest is exactly the remaining input (lossless continuation) and the state invariant holds; None only when nothing remains
+//@ assume: ChunkIter invariant between calls: pos <= buf.len() (established by new(), re-established by this step)
+//@ outside: look-ahead fills above 12 bytes (real buffer: 4 KiB; same code path); other polynomials; random_poly search
 #[kani::proof]
-#[kani::unwind(80)]
+#[kani::unwind(90)]
 #[kani::stub(std::backtrace::Backtrace::capture, crate::error::verif_harness::stub_backtrace_capture)]
-pub(crate) fn c06_rabin_partition_64_72() {
-    partition_check::<76, 8, false>(64, 64, 72, 0, 0);
+#[kani::stub(crate::error::RusticError::new, crate::error::verif_harness::stub_rustic_new)]
+#[kani::stub(crate::error::RusticError::attach_context, crate::error::verif_harness::stub_attach_context)]
+#[kani::stub(crate::error::RusticError::attach_source, crate::error::verif_harness::stub_attach_source)]
+pub(crate) fn c06_rabin_step_64_72() {
+    step_check::<76, 12, 8, false>(64, 64, 72, 0, 0);
 }
 
-//@ harness: c06_rabin_partition_64_80_interrupts
+//@ harness: c06_rabin_step_64_80_interrupts
 //@ prop: C06
 //@ tier: thorough
 //@ timeout: 3400
-//@ mem: 20
+//@ mem: 30
 //@ unwindset: calculate_out_table#0=64; calculate_out_table#1=258; calculate_mod_table#0=258; modulo#0=64
-//@ kernel: as c06_rabin_partition_64_72
-//@ bound: (avg,min,max)=(64,64,80); stream 0..=120 symbolic bytes; symbolic fragmentation plus up to 2 ErrorKind::Interrupted results at symbolic points; size_hint usize::MAX; unwind 130
-//@ oracle: as c06_rabin_partition_64_72
+//@ kernel: as c06_rabin_step_64_72
+//@ bound: as c06_rabin_step_64_72 with (avg,min,max)=(64,64,80), 0..=16 look-ahead bytes, 0..=84 stream bytes, plus up to 2 ErrorKind::Interrupted results at symbolic points; size_hint usize::MAX; unwind 102
+//@ oracle: as c06_rabin_step_64_72
+//@ assume: ChunkIter invariant between calls
 #[kani::proof]
-#[kani::unwind(130)]
+#[kani::unwind(102)]
 #[kani::stub(std::backtrace::Backtrace::capture, crate::error::verif_harness::stub_backtrace_capture)]
-pub(crate) fn c06_rabin_partition_64_80_interrupts() {
-    partition_check::<120, 16, true>(64, 64, 80, 2, usize::MAX);
+#[kani::stub(crate::error::RusticError::new, crate::error::verif_harness::stub_rustic_new)]
+#[kani::stub(crate::error::RusticError::attach_context, crate::error::verif_harness::stub_attach_context)]
+#[kani::stub(crate::error::RusticError::attach_source, crate::error::verif_harness::stub_attach_source)]
+pub(crate) fn c06_rabin_step_64_80_interrupts() {
+    step_check::<84, 16, 16, true>(64, 64, 80, 2, usize::MAX);
 }
 
 /// look-ahead capacity scaled to LOOK bytes: the state after a short read
@@ -201,7 +231,7 @@ const LOOK: usize = 24;
 //@ tier: quick
 //@ timeout: 1500
 //@ mem: 16
-//@ unwindset: calculate_out_table#0=4; calculate_out_table#1=258; calculate_mod_table#0=258; modulo#0=64; EcoVec.*extend_from_slice#0=200
+//@ unwindset: calculate_out_table#0=4; calculate_out_table#1=258; calculate_mod_table#0=258; modulo#0=64
 //@ kernel: chunker::rabin::ChunkIter::next from an arbitrary valid iterator state, check_rabin_params
 //@ bound: (avg,min,max) symbolic with avg <= 64, max <= 72, constrained only by check_rabin_params(..).is_ok(); look-ahead buffer holds a symbolic number 0..=24 of unread symbolic bytes (state after any short read); remaining stream 0..=8 symbolic bytes with symbolic fragmentation; one call of next(); the Rabin64 instance is built with a 2-byte window (hash values are not the subject here, ChunkIter::next's own 64-byte slice is); unwind 76
 //@ oracle: one step from any valid state never panics (no underflow, no out-of-range slice), returns a chunk with 1..=max bytes made of exactly the next unread bytes (>= min unless the stream ended), or None only when nothing is left to read
@@ -210,6 +240,9 @@ const LOOK: usize = 24;
 #[kani::proof]
 #[kani::unwind(76)]
 #[kani::stub(std::backtrace::Backtrace::capture, crate::error::verif_harness::stub_backtrace_capture)]
+#[kani::stub(crate::error::RusticError::new, crate::error::verif_harness::stub_rustic_new)]
+#[kani::stub(crate::error::RusticError::attach_context, crate::error::verif_harness::stub_attach_context)]
+#[kani::stub(crate::error::RusticError::attach_source, crate::error::verif_harness::stub_attach_source)]
 #[kani::stub(alloc::fmt::format, crate::error::verif_harness::stub_format)]
 pub(crate) fn c06_rabin_accepted_params_step() {
     let size: usize = kani::any();
